@@ -285,6 +285,48 @@ def run(res, tier, seed, shard, nshards):
     H.in_sim(slow, watchdog=600)
     if shard == 0:
         real_tls_coalescing(res, W)
+    if shard == 5 % nshards:
+        real_tcp_head_cuts(res, W, tier)
+    # frames of tens of megabytes whose payload arrives in two or three instalments with receive timeouts in between
+    sizes = [(1 << 25) + 7] if tier == "quick" else [(1 << 24) + 1, (1 << 25), (1 << 25) + 7, (1 << 26) + 3]
+    for si, size in enumerate(sizes):
+        if (6 + si) % nshards == shard:
+            H.in_sim(lambda size=size: huge_frame_timeout_case(res, W, size), watchdog=600)
+
+
+def huge_frame_timeout_case(res, W, size):
+    import hashlib
+    body = (bytes(range(256)) * (size // 256 + 1))[:size]
+    stream = R.encode(R.BINARY, body) + R.encode(R.TEXT, b"after")
+    w, conn, peer = H.connected_ws(timeout=1)
+    cuts = [size // 3, size // 3 + 5, (2 * size) // 3 + 11]
+    pieces = [stream[a:b] for a, b in zip([0] + cuts, cuts + [len(stream)])]
+    got = []
+    timeouts = 0
+    case = {"gen": "huge-frame-timeouts", "payload_bytes": size, "instalments": [len(p) for p in pieces]}
+    res.case(("huge-frame", size), nontrivial=True)
+    res.count("huge_frames_with_timeouts")
+    for pi, piece in enumerate(pieces):
+        conn.deliver(piece)
+        for _ in range(3):
+            try:
+                v = w.recv()
+                got.append(v)
+            except W.WebSocketTimeoutException:
+                timeouts += 1
+                break
+            except Exception as e:  # noqa
+                res.violation("segmentation-dependent:unexpected-exception", f"a {size}-byte frame arriving in {len(pieces)} instalments with receive timeouts in between: "
+                              f"{type(e).__name__}: {e} (after {timeouts} timeouts, {len(got)} messages)", case, seg_kind="huge-frame")
+                return
+            if len(got) == 2:
+                break
+    ok = len(got) == 2 and isinstance(got[0], bytes) and len(got[0]) == size and hashlib.sha1(got[0]).digest() == hashlib.sha1(body).digest() and got[1] == "after"
+    if not ok:
+        desc = [(type(g).__name__, len(g), (g[:8] if isinstance(g, bytes) else g[:8])) for g in got]
+        res.violation("segmentation-dependent:value-mismatch", f"a {size}-byte frame arriving in {len(pieces)} instalments with {timeouts} receive timeouts in between: delivered {desc}, "
+                      f"expected the {size} payload bytes and then 'after'", case, seg_kind="huge-frame")
+    w.shutdown()
 
 
 _pred_cache = {}
@@ -557,6 +599,67 @@ def one(res, W, stream, call, cuts, tplan, head_cuts, tag, eagain=None, pauses=F
             res.count("conservation_ok")
     if cuts and tplan:
         res.sample(case, cap=2)
+
+
+def real_tcp_head_cuts(res, W, tier):
+    """Real TCP on loopback, the socket created by the library itself: the server's answer (handshake response + two frames) arrives in
+    two TCP segments cut at / next to every line end of the response (CR | LF included) - in thorough runs at every byte.  Same
+    observations for every cut.  A deviation has to reproduce before it is reported (the kernel may coalesce segments)."""
+    import socket
+    import threading
+    import time
+    tail = R.encode(R.TEXT, b"hello") + R.encode(R.BINARY, b"\x00\xff")
+    probe = H.response_101("x" * 24)
+    n = len(probe)
+    ends = [i for i in range(n) if probe[i:i + 2] == b"\r\n"]
+    cuts = sorted({c for e in ends for c in (e, e + 1, e + 2)} | {1, n, n + 1, n + 3}) if tier == "quick" else list(range(1, n + len(tail)))
+    for cut in cuts:
+        for attempt in range(2):
+            lsock = socket.socket()
+            lsock.setsockopt(socket.SOL_SOCKET, socket.SO_REUSEADDR, 1)
+            lsock.bind(("127.0.0.1", 0))
+            lsock.listen(1)
+            port = lsock.getsockname()[1]
+
+            def server(lsock=lsock, cut=cut):
+                try:
+                    lsock.settimeout(10)
+                    c, _ = lsock.accept()
+                    c.setsockopt(socket.IPPROTO_TCP, socket.TCP_NODELAY, 1)
+                    c.settimeout(10)
+                    buf = b""
+                    while b"\r\n\r\n" not in buf:
+                        d = c.recv(4096)
+                        if not d:
+                            return
+                        buf += d
+                    data = H.response_101(H.request_key(buf) or "") + tail
+                    c.sendall(data[:cut])
+                    time.sleep(0.03)
+                    c.sendall(data[cut:])
+                    time.sleep(0.3)
+                    c.close()
+                except OSError:
+                    pass
+                finally:
+                    lsock.close()
+            threading.Thread(target=server, daemon=True).start()
+            got = []
+            try:
+                w = W.create_connection(f"ws://127.0.0.1:{port}/", timeout=3)
+                got.append(("value", w.recv()))
+                got.append(("value", w.recv()))
+                w.shutdown()
+            except Exception as e:  # noqa
+                got.append(("exc", type(e).__name__ + ": " + str(e)[:60]))
+            res.count("real_tcp_head_cut_runs")
+            if got == [("value", "hello"), ("value", b"\x00\xff")]:
+                break
+            if attempt == 1:
+                where = "between CR and LF of a response line" if probe[cut - 1:cut + 1] == b"\r\n" else f"at byte {cut}"
+                res.violation("segmentation-dependent:unexpected-exception" if got and got[-1][0] == "exc" else "segmentation-dependent:value-mismatch",
+                              f"real TCP, the server's answer arriving in two segments cut {where}: the client observed {got}, expected 'hello' and a binary message",
+                              {"gen": "real-tcp-head-cut", "cut": cut}, seg_kind="real-tcp-head-cut")
 
 
 def real_tls_coalescing(res, W):
